@@ -54,6 +54,27 @@ pub fn instance_for(ctx: &Ctx, idx: u64) -> (Value, String, String) {
     if idx % 100 == 57 {
         return (gen::gap_network(&mut rng, &tag), tag, "gap_network".to_string());
     }
+    if idx % 100 == 83 || (ctx.prop == "C02" && idx % 10 == 4) {
+        return (gen::depot_squeeze_network(&mut rng, &tag), tag, "depot_squeeze_network".to_string());
+    }
+    if idx % 100 == 71 {
+        return (gen::turnaround_network(&mut rng, &tag), tag, "turnaround_network".to_string());
+    }
+    if idx % 100 == 33 {
+        // a busy line: long tours, slow dead-heads; a third with trips of hundreds of km
+        let ndep = rng.usize(25, 60);
+        let with_slots = ndep <= 40 && rng.chance(1, 2);
+        let long_distance = rng.chance(1, 3);
+        let (ws, ld) = (with_slots, long_distance);
+        return (gen::line_network(&mut rng, &tag, ndep, ws, ld), tag, "busy_line".to_string());
+    }
+    if idx % 500 == 123 {
+        // a full-day timetable: hundreds of departures of one or two types (no maintenance
+        // slots, the pipeline is flow + depots + transitions)
+        let ndep = rng.usize(260, 340);
+        let (ws, ld) = (false, rng.chance(1, 3));
+        return (gen::line_network(&mut rng, &tag, ndep, ws, ld), tag, "full_day_timetable".to_string());
+    }
     let input = gen::generate(&mut rng, &opts, &tag);
     (input, tag, profile.name().to_string())
 }
